@@ -2,6 +2,9 @@
 //! oracles' findings.   usage: hpxharness <property> <quick|thorough> <seed> <outdir>
 mod util;
 mod c18;
+mod bm;
+mod c07;
+mod c15;
 
 use util::*;
 
@@ -22,6 +25,10 @@ fn main() {
   out.rec(&format!("profile {} {}", if is_debug() { "debug" } else { "release" }, if has_bmi2() { "bmi2" } else { "lut" }), "ok");
   match prop {
     "C18" => c18::run(&mut out, &mut rng, thorough),
+    "C07" => c07::run_c07(&mut out, &mut rng, thorough),
+    "C15" => c15::run_c15(&mut out, &mut rng, thorough),
+    "C09" => c15::run_c09(&mut out, &mut rng, thorough),
+    "C08" => c07::run_c08(&mut out, &mut rng, thorough),
     _ => { eprintln!("unknown property {}", prop); std::process::exit(2); }
   }
   out.finish(dir, prop, &profile);
